@@ -281,8 +281,13 @@ def _type_check_local_reference(expression, ir, errors):
         return
     field = referrent
     if ir_util.field_is_virtual(field):
+        # Errors in the referenced field's value belong to the file that holds the
+        # field: pass its name, not the Reference object.
         _type_check_expression(
-            field.read_transform, expression.field_reference.path[0], ir, errors
+            field.read_transform,
+            expression.field_reference.path[0].canonical_name.module_file,
+            ir,
+            errors,
         )
         ir_data_utils.builder(expression).type.CopyFrom(field.read_transform.type)
         return
